@@ -6,7 +6,8 @@
 
    The subset: guards that return an error status, `const std::size_t` locals, at most one call
    forwarded to the wrapped object per path (its failure is returned unchanged), `index_ += e`,
-   `return {}` and `return <forwarded call>`.  Arithmetic is std::size_t (mod 2^64). *)
+   `return {}` and `return <forwarded call>`; for BufferReader / PedanticBufferReader also the guarded memcpy out of
+   buffer_.  Arithmetic is std::size_t (mod 2^64). *)
 From Nop Require Export IO.
 Local Open Scope N_scope.
 
@@ -19,7 +20,7 @@ Inductive bexpr :=
 
 Inductive bcond :=
 | CLt (a b : bexpr) | CGt (a b : bexpr) | CLe (a b : bexpr) | CGe (a b : bexpr)
-| CEq (a b : bexpr) | CNot (c : bcond).
+| CEq (a b : bexpr) | CNot (c : bcond) | CTrue.
 
 Inductive bstmt :=
 | SRetErr (e : N)                                  (* return ErrorStatus::e;                                   *)
@@ -28,11 +29,14 @@ Inductive bstmt :=
 | SIf (c : bcond) (yes no : bstmt)                 (* if (c) yes else no   /   if (c) yes; no                  *)
 | SLet (e : bexpr) (rest : bstmt)                  (* const std::size_t x = e; rest                            *)
 | SCallChk (arg : bexpr) (rest : bstmt)            (* auto status = inner_->Call(arg); if (!status) return status; rest *)
-| SAddIndex (e : bexpr) (rest : bstmt).            (* index_ += e; rest                                        *)
+| SAddIndex (e : bexpr) (rest : bstmt)             (* index_ += e; rest                                        *)
+| SWhenCopy (c : bcond) (off len : bexpr) (rest : bstmt).
+                                                   (* if (c) std::memcpy(begin, &buffer_[off], len); rest   (buffer readers) *)
 
 Section Run.
   Context {X A : Type}.
   Variable call : N -> X -> res A X.      (* the one method of the wrapped object this method forwards to *)
+  Variable copy : N -> N -> X -> A.       (* buffer readers: the len bytes at offset off that memcpy hands to the caller *)
   Variable dflt : A.                      (* the value of `return {}` when no call was made               *)
   Variable params : list N.
 
@@ -56,6 +60,7 @@ Section Run.
     | CGe x y => eval env b y <=? eval env b x
     | CEq x y => eval env b x =? eval env b y
     | CNot c' => negb (test env b c')
+    | CTrue => true
     end.
 
   Fixpoint run (s : bstmt) (env : list N) (last : A) (b : Bounded X) : res A (Bounded X) :=
@@ -75,6 +80,8 @@ Section Run.
         | Err e x => Err e (b_with b x (b_index b))
         end
     | SAddIndex e rest => run rest env last (b_with b (b_inner b) (add64 (b_index b) (eval env b e)))
+    | SWhenCopy c off len rest =>
+        run rest env (if test env b c then copy (eval env b off) (eval env b len) (b_inner b) else last) b
     end.
 
   Definition exec (s : bstmt) (b : Bounded X) : res A (Bounded X) := run s [] dflt b.
